@@ -286,6 +286,39 @@ func stringListIn(fn *ssa.Function) []string {
 	return out
 }
 
+// c10TextOf: the text handed to the float parser, as a format with one %d and the integer printed into it:
+// fmt.Sprintf("9.9995e%d", exp) or "9.9995e" + strconv.Itoa(exp).
+func c10TextOf(v ssa.Value) (lit string, operand ssa.Value, ok bool) {
+	switch x := v.(type) {
+	case *ssa.Call:
+		if !objIs(calleeObj(&x.Call), "fmt", "", "Sprintf") || len(x.Call.Args) < 2 {
+			return "", nil, false
+		}
+		lit, _ = constString(x.Call.Args[0])
+		if sl, ok := x.Call.Args[1].(*ssa.Slice); ok {
+			if al, ok := sl.X.(*ssa.Alloc); ok {
+				for _, st := range storesInto(al) {
+					if mi, ok := st.Val.(*ssa.MakeInterface); ok {
+						operand = mi.X
+					}
+				}
+			}
+		}
+		return lit, operand, true
+	case *ssa.BinOp:
+		if x.Op != token.ADD {
+			return "", nil, false
+		}
+		k, isK := constString(x.X)
+		cv, isCall := x.Y.(*ssa.Call)
+		if !isK || !isCall || !objIs(calleeObj(&cv.Call), "strconv", "", "Itoa") {
+			return "", nil, false
+		}
+		return k + "%d", cv.Call.Args[0], true
+	}
+	return "", nil, false
+}
+
 var expFmt = regexp.MustCompile(`^([0-9.a-fx]+)([ep])%d$`)
 
 func c10Ladders(c *Ctx, p *Prog) {
@@ -489,8 +522,10 @@ func c10Ladders(c *Ctx, p *Prog) {
 		}
 		site := p.pos(fn.Pos())
 		var lit string
-		for _, call := range callsIn(fn, "fmt", "", "Sprintf") {
-			lit, _ = constString(call.Common().Args[0])
+		for _, call := range callsIn(fn, "strconv", "", "ParseFloat") {
+			if l, _, ok := c10TextOf(call.Common().Args[0]); ok {
+				lit = l
+			}
 		}
 		// loop bounds: exp from -1 down while exp > -9
 		var start, limit int64
@@ -665,18 +700,17 @@ func c10Thresholds(c *Ctx, p *Prog, fn *ssa.Function, kind string, body *ssa.Fun
 			}
 			switch {
 			case objIs(calleeObj(&call.Call), "strconv", "", "ParseFloat"):
-				sp, ok := call.Call.Args[0].(*ssa.Call)
-				if !ok || !objIs(calleeObj(&sp.Call), "fmt", "", "Sprintf") {
+				lit, operand, ok := c10TextOf(call.Call.Args[0])
+				if !ok {
 					return
 				}
-				lit, _ := constString(sp.Call.Args[0])
 				field := ""
 				for _, r := range *call.Referrers() {
 					if ex, ok := r.(*ssa.Extract); ok && ex.Index == 0 {
 						field = fieldOfResult(ex)
 					}
 				}
-				ths = append(ths, thr{lit, field, sprintfOperand(sp)})
+				ths = append(ths, thr{lit, field, operand})
 			case isThresholdParser(call.Call.StaticCallee()):
 				lit, _ := constString(call.Call.Args[0])
 				ths = append(ths, thr{lit, fieldOfResult(call), call.Call.Args[1]})
@@ -944,6 +978,22 @@ func c10Select(c *Ctx, p *Prog) {
 								if pf, _ := fieldOfAddr(st.Addr); pf == precF {
 									if k, ok := intAt(st.Val, vis.idx, vis.k); ok {
 										prec = k
+									}
+								}
+							}
+							// the Scaler is built by a helper from the precision it is handed (factor.scaler(1))
+							if ret, ok := in2.(*ssa.Return); ok && len(ret.Results) >= 1 {
+								if mk, ok := retVal(ret, 0).(*ssa.Call); ok {
+									if h := mk.Call.StaticCallee(); h != nil && h.Pkg == fn.Pkg && h.Blocks != nil {
+										for _, hst := range storesToField(h, precF) {
+											for pi, prm := range h.Params {
+												if hst.Val == ssa.Value(prm) && pi < len(mk.Call.Args) {
+													if k, ok := intAt(mk.Call.Args[pi], vis.idx, vis.k); ok {
+														prec = k
+													}
+												}
+											}
+										}
 									}
 								}
 							}
